@@ -72,6 +72,19 @@ def _intenum(pairs, flag=False):
     return _enum_cache[key]
 
 
+def enum_table(spec):
+    """[label, value] pairs an Enum spec actually knows: keyword labels all count; merging an enum class merges what iterating
+    the class yields, which leaves out aliases (a later name for an already declared value)"""
+    if (spec[3] if len(spec) > 3 else "kw") != "intenum":
+        return spec[2]
+    seen, out = set(), []
+    for l, v in spec[2]:
+        if v not in seen:
+            seen.add(v)
+            out.append([l, v])
+    return out
+
+
 def realise(spec):
     """spec -> construct object (public names, constructors, macros and operators)"""
     import construct as C
@@ -169,6 +182,8 @@ def realise(spec):
         return C.Nibble
     if k == "octet":
         return C.Octet
+    if k == "bittail":
+        return C.GreedyBytes       # inside a bit-level region: every remaining bit, one byte (0 or 1) each
     if k in ("struct", "seq", "bitstruct", "alignedstruct", "lazystruct", "union"):
         members = spec[1] if k not in ("alignedstruct", "union") else spec[2]
         subs = []
@@ -202,7 +217,7 @@ def realise(spec):
         if k == "lazystruct":
             return C.LazyStruct(*subs)
         if k == "union":
-            return C.Union(spec[1], *subs)
+            return C.Union(param(spec[1]), *subs)
         return C.AlignedStruct(spec[1], *subs)
     if k == "fseq":
         subs = [(name / R(s)) if name else R(s) for name, s in spec[2]]
@@ -281,6 +296,9 @@ def realise(spec):
         return C.Pointer(param(spec[1]), R(spec[2]))
     if k == "rawcopy":
         return C.RawCopy(R(spec[1]))
+    if k == "defaultrc":
+        # a RawCopy region with a default: the default (a Container holding the value) is an object the construct owns
+        return C.Default(C.RawCopy(R(spec[1])), C.Container(value=spec[2]))
     if k == "lazy":
         return C.Lazy(R(spec[1]))
     if k == "lazyarray":
@@ -453,7 +471,7 @@ def fixed_size(spec, bit=False):
 def greedy(spec):
     """reads to the end of its stream (so only valid in tail position of a delimited region)"""
     k = spec[0]
-    if k in ("gbytes", "gstr", "grange", "nullstrip", "xor", "rol", "compressed", "terminated", "optional", "offsettedend"):
+    if k in ("gbytes", "gstr", "grange", "nullstrip", "xor", "rol", "compressed", "terminated", "optional", "offsettedend", "bittail"):
         return True
     if k == "nullterm":
         return not spec[5]
